@@ -116,7 +116,7 @@ impl<T: ProgProperty> PP<T> {
     /// program in four - chosen by a hash of its text - gets it.
     fn step_limit(&self, program: &str, family: &str) -> u64 {
         let full = self.0.max_steps();
-        if crate::engine::fnv(program) % 4 == 0 || family == "wide" || family == "bigconst" {
+        if crate::engine::fnv(program) % 4 == 0 || family == "wide" || family == "bigconst" || family == "hibits" {
             full
         } else {
             (full / 15).max(1000)
@@ -190,9 +190,10 @@ impl<T: ProgProperty> Property for PP<T> {
     }
     fn concretize(&self, g: &ProgGen) -> ProgCase {
         let program = g.0.render();
-        let r = refmodel::run(&program, &g.1, g.2, self.step_limit(&program, g.0.family()));
-        let cfgs = if self.0.admit(&r).is_ok() { self.0.make_cfgs(&g.3, &program, &g.1, g.2, &r) } else { vec![] };
-        ProgCase { program, input: g.1.clone(), bits: g.2, cfgs, family: g.0.family().to_string() }
+        let input = g.0.fixed_input().unwrap_or_else(|| g.1.clone());
+        let r = refmodel::run(&program, &input, g.2, self.step_limit(&program, g.0.family()));
+        let cfgs = if self.0.admit(&r).is_ok() { self.0.make_cfgs(&g.3, &program, &input, g.2, &r) } else { vec![] };
+        ProgCase { program, input, bits: g.2, cfgs, family: g.0.family().to_string() }
     }
     fn check(&self, c: &ProgCase, stats: &mut Stats) -> Outcome {
         self.check_inner(c, stats)
